@@ -235,6 +235,7 @@ def run(prog, chk):
             chk.fail("R12.4", fn, "body-not-on-clone", "%s: the cloned shell does not flow into the executed body (%s)" % (what, mode))
     current_shell_stage_rule(prog, chk)
     stage_error_containment_rule(prog, chk)
+    job_result_reduction_rule(prog, chk)
 
 
 def _sanctioned_edges(b, len_locals=()):
@@ -260,6 +261,82 @@ def _sanctioned_edges(b, len_locals=()):
         f, tr = bool_edges(gt)
         removed.add((gb, tr))
     return removed
+
+
+def _jobcontrol_edges(b, len_locals=()):
+    """edges to cut for the second question ("with job control ON, only a single-command pipeline runs in the current shell"): the
+    true-edges of `<len> == 1` and the FALSE edges of tests of the enable_job_control option. Returns (edges, number of job-control tests)."""
+    from rulelib import bool_edges, switches_on_field
+    removed = {e for e in _sanctioned_edges(b, len_locals) if True}
+    # keep only the len==1 edges: drop the lastpipe ones
+    lastpipe = set()
+    for gb, gt in switches_on_field(b, "run_last_pipeline_cmd_in_current_shell"):
+        f, tr = bool_edges(gt)
+        lastpipe.add((gb, tr))
+    removed -= lastpipe
+    njc = 0
+    d = defs_of(b)
+    for gb, gt in switches_on_field(b, "enable_job_control", through_ops=True):
+        f, tr = bool_edges(gt)
+        if f is None:
+            continue
+        # polarity: is the switch discriminant the option itself or its negation?
+        neg = False
+        pure = True
+        loc = gt.discr.place.local if gt.discr.place is not None and gt.discr.place.is_local() else None
+        for _ in range(6):
+            if loc is None:
+                break
+            ds = d.of(loc)
+            if len(ds) != 1 or ds[0][0] != 'assign':
+                break
+            rv = ds[0][3].rv
+            if rv.kind == 'un':
+                neg = not neg
+                loc = rv.ops[0].place.local if rv.ops[0].place is not None and rv.ops[0].place.is_local() else None
+                if loc is None:
+                    break
+            elif rv.kind == 'use' and rv.ops[0].place is not None:
+                if rv.ops[0].place.is_local():
+                    loc = rv.ops[0].place.local
+                else:
+                    break
+            elif rv.kind == 'bin':
+                pure = False
+                break
+            else:
+                break
+        if not pure:
+            continue            # a combined condition is not a test of the option alone
+        off_edge = tr if neg else f          # the edge taken when job control is OFF
+        removed.add((gb, off_edge))
+        njc += 1
+    return removed, njc
+
+
+def _not_jobcontrol_defs(b, local):
+    """blocks in which `local` is assigned `!<enable_job_control option>` (the option read directly): such a definition is false
+    whenever job control is on"""
+    d = defs_of(b)
+    out = set()
+    for kind, dbb, idx, node in d.of(local):
+        if kind != 'assign' or node.rv.kind != 'un':
+            continue
+        op = node.rv.ops[0]
+        if op.place is None:
+            continue
+        pl = op.place
+        for _ in range(4):
+            if any(p[0] == 'f' and p[3] == "enable_job_control" for p in pl.proj):
+                out.add(dbb)
+                break
+            if not pl.is_local():
+                break
+            ds = d.of(pl.local)
+            if len(ds) != 1 or ds[0][0] != 'assign' or ds[0][3].rv.kind != 'use' or ds[0][3].rv.ops[0].place is None:
+                break
+            pl = ds[0][3].rv.ops[0].place
+    return out
 
 
 def _reach_without(b, removed, targets):
@@ -308,6 +385,7 @@ def current_shell_stage_rule(prog, chk):
     # are the blocks that can make that local true; if it is the result of a helper call, the helper's body is analysed instead
     targets = list(parents)
     helper_calls = []
+    flag_chain = set()
     for bl in b.blocks:
         t = bl.term
         if t.kind == "switch" and t.ty == "bool" and t.discr.place is not None and t.discr.place.is_local() and bl.idx in c.reach:
@@ -326,6 +404,7 @@ def current_shell_stage_rule(prog, chk):
                     if l in seen_l:
                         continue
                     seen_l.add(l)
+                    flag_chain.add(l)
                     for kind, dbb, idx, node in d.of(l):
                         if kind == 'assign' and node.rv.kind == 'use':
                             o = node.rv.ops[0]
@@ -348,6 +427,7 @@ def current_shell_stage_rule(prog, chk):
                     targets = tb
     nguards = 0
     problems = []
+    jc_problems = []
     if targets:
         removed = _sanctioned_edges(b)
         nguards += len(removed)
@@ -357,6 +437,18 @@ def current_shell_stage_rule(prog, chk):
         p = _reach_without(b, removed, targets)
         if p is not None:
             problems.append((b, p))
+        if not helper_calls:
+            r2, njc = _jobcontrol_edges(b)
+            notjc = set()
+            for l in flag_chain:
+                notjc |= _not_jobcontrol_defs(b, l)
+            njc += len(notjc)
+            if njc == 0:
+                jc_problems.append((b, None))
+            else:
+                p2 = _reach_without(b, r2, [x for x in targets if x not in notjc])
+                if p2 is not None:
+                    jc_problems.append((b, p2))
     for dbb, call, hb in helper_calls:
         # parameters of the helper that receive a length at this call site
         len_locals = set()
@@ -380,6 +472,22 @@ def current_shell_stage_rule(prog, chk):
         p = _reach_without(hb, removed, [x for x in tt if x in hc.reach])
         if p is not None:
             problems.append((hb, p))
+        r2, njc = _jobcontrol_edges(hb, len_locals)
+        notjc = _not_jobcontrol_defs(hb, 0)
+        njc += len(notjc)
+        if njc == 0:
+            jc_problems.append((hb, None))
+        else:
+            p2 = _reach_without(hb, r2, [x for x in tt if x in hc.reach and x not in notjc])
+            if p2 is not None:
+                jc_problems.append((hb, p2))
+    if jc_problems and not problems:
+        pb, path = jc_problems[0]
+        chk.fail("R12.5", fn, "current-shell-stage-under-job-control",
+                 "with job control enabled (`set -m`) the last stage of a multi-command pipeline can still be given the current shell (decided in %s%s): bash ignores "
+                 "lastpipe whenever job control is on, interactive or not, so the stage's assignments, cd and options leak into the script's shell"
+                 % (owner(pb.name), "" if path is None else ", path through blocks %s" % path[-6:]))
+        return
     if problems:
         pb, path = problems[0]
         lines = sorted({pb.blocks[x].term.line for x in path if pb.blocks[x].term.kind == "switch"})
@@ -509,3 +617,45 @@ def stage_error_containment_rule(prog, chk):
                  "subshell: `set -u; echo \"${c}\" | cat; echo after` ends the whole script instead of failing the stage" % b.blocks[bad[0]].term.line)
     else:
         chk.ok("R12.6", "stage-errors-contained", "error exits fed by the stage's result are reachable only on the current-shell edge (%d flag tests after the call)" % len(removed), function=fn)
+
+
+JOB_RESULT_SOURCES = ("brush_core::jobs::Job::wait", "brush_core::jobs::JobTask::wait", "brush_core::jobs::JobManager::wait_all",
+                      "brush_core::jobs::Job::poll", "brush_core::jobs::JobTask::poll")
+
+
+def job_result_reduction_rule(prog, chk):
+    """R12.8: what a background job (a clone running as a task) did comes back to the shell that waits for it as an exit status only.
+    A function that obtains a job's ExecutionResult (Job::wait, JobTask::wait, wait_all …) and returns an ExecutionResult of its own
+    must not return the job's value as it is — its control flow (`exit`, `return`) would be carried out by the waiting shell."""
+    from dataflow import flow_back
+    chk.rule("R12.8", "a job's ExecutionResult never becomes the result of the function that waited for it except through its exit_code: "
+                      "`{ exit 3; } & wait %1` must not end the waiting shell")
+    n = 0
+    for b in prog.all_bodies(SHIPPED):
+        srcs = [(bb, t) for bb, t in b.calls() if (t.best_callee() or "") in JOB_RESULT_SOURCES]
+        if not srcs or "ExecutionResult" not in b.ret:
+            continue
+        fn = owner(b.name)
+        if fn.startswith("brush_core::jobs::"):
+            continue        # the job layer itself hands the value on
+        n += 1
+        d = defs_of(b)
+        bad = None
+        for bl in b.blocks:
+            for st in bl.stmts:
+                if st.kind == 'a' and st.place.is_local() and st.place.local == 0 and st.rv.kind == 'agg' and st.rv.variant == "Ok" and st.rv.ops:
+                    for f in flow_back(b, d, st.rv.ops[0], all_args=False):
+                        if any(v in JOB_RESULT_SOURCES for v in f.via) and "exit_code" not in f.field_path() \
+                                and not any(v.endswith(("From<brush_core::results::ExecutionExitCode>>::from", "ExecutionResult::new")) for v in f.via):
+                            bad = st
+        if bad is not None:
+            chk.fail("R12.8", fn, "job-result-returned-with-control-flow",
+                     "%s returns the ExecutionResult it got from a job as its own result: an `exit` or errexit failure inside the background job is then carried "
+                     "out by the waiting shell — `{ sleep 0; exit 3; } & wait %%+; echo alive` never prints" % fn)
+        else:
+            chk.ok("R12.8", "job-result-reduced@" + short_fn(fn), "job results do not reach the return value with their control flow", function=fn)
+    chk.floor("R12.8", "functions that wait for jobs and return an ExecutionResult", n, 1)
+
+
+def short_fn(fn):
+    return fn.split(" as ")[0].lstrip("<").rsplit("::", 1)[-1] if " as " in fn else fn.rsplit("::", 1)[-1]
